@@ -946,6 +946,34 @@ func c13OtherQueriesMachine() *machine {
 		}
 		return ix, shapes
 	}
+	ll := func(a, b float64) s2.Point { return s2.PointFromLatLng(s2.LatLngFromDegrees(a, b)) }
+	edges := [][2]s2.Point{{ll(0, 0), ll(20, 20)}, {ll(10, 0), ll(10, 30)}, {ll(-60, 100), ll(-50, 120)}}
+	pts := []s2.Point{ll(10, 10), ll(12, 14), ll(50, 50)}
+	return c13QueriesMachineOn("M4-Crossing+ContainsPoint-query-reuse", mkIndex, edges, pts, 0, 3)
+}
+
+// c13SmallIndexQueriesMachine: the same alphabet on an index so small that it is one index cell
+// holding two shapes (a square loop and a polyline): every query edge resolves to that single cell,
+// whose edge lists a query must not disturb.
+func c13SmallIndexQueriesMachine() *machine {
+	ll := func(a, b float64) s2.Point { return s2.PointFromLatLng(s2.LatLngFromDegrees(a, b)) }
+	mkIndex := func() (*s2.ShapeIndex, []s2.Shape) {
+		ix := s2.NewShapeIndex()
+		loop := s2.LoopFromPoints([]s2.Point{ll(1, 1), ll(1, 2), ll(2, 2), ll(2, 1)})
+		line := s2.Polyline{ll(3, 1), ll(3, 2), ll(4, 2)}
+		shapes := []s2.Shape{loop, &line}
+		for _, s := range shapes {
+			ix.Add(s)
+		}
+		return ix, shapes
+	}
+	edges := [][2]s2.Point{{ll(0.5, 1.5), ll(1.5, 1.5)}, {ll(1.5, 1.5), ll(2.5, 1.5)}, {ll(1.5, 0.5), ll(1.5, 1.5)}, {ll(1.5, 1.5), ll(1.5, 2.5)},
+		{ll(0.5, 1.5), ll(2.5, 1.5)}, {ll(2.5, 1.5), ll(3.5, 1.5)}}
+	pts := []s2.Point{ll(1.5, 1.5), ll(0.5, 1.5), ll(1.1, 1.9)}
+	return c13QueriesMachineOn("M4-small-index-Crossing+ContainsPoint-query-reuse", mkIndex, edges, pts, 0, 1)
+}
+
+func c13QueriesMachineOn(name string, mkIndex func() (*s2.ShapeIndex, []s2.Shape), edges [][2]s2.Point, pts []s2.Point, shapeA, shapeB int) *machine {
 	type env struct {
 		ix     *s2.ShapeIndex
 		shapes []s2.Shape
@@ -956,9 +984,6 @@ func c13OtherQueriesMachine() *machine {
 		ix, sh := mkIndex()
 		return &env{ix, sh, s2.NewCrossingEdgeQuery(ix), s2.NewContainsPointQuery(ix, s2.VertexModelSemiOpen)}
 	}
-	ll := func(a, b float64) s2.Point { return s2.PointFromLatLng(s2.LatLngFromDegrees(a, b)) }
-	edges := [][2]s2.Point{{ll(0, 0), ll(20, 20)}, {ll(10, 0), ll(10, 30)}, {ll(-60, 100), ll(-50, 120)}}
-	pts := []s2.Point{ll(10, 10), ll(12, 14), ll(50, 50)}
 	type opT struct {
 		name string
 		f    func(e *env) string
@@ -967,7 +992,20 @@ func c13OtherQueriesMachine() *machine {
 	for i, ed := range edges {
 		ed := ed
 		ops = append(ops, opT{fmt.Sprintf("Crossings(e%d,polygon)", i), func(e *env) string {
-			return fmt.Sprint(e.cq.Crossings(ed[0], ed[1], e.shapes[0], s2.CrossingTypeAll))
+			return fmt.Sprint(e.cq.Crossings(ed[0], ed[1], e.shapes[shapeA], s2.CrossingTypeAll))
+		}})
+		ops = append(ops, opT{fmt.Sprintf("CrossingsEdgeMap(e%d,All)", i), func(e *env) string {
+			em := e.cq.CrossingsEdgeMap(ed[0], ed[1], s2.CrossingTypeAll)
+			var parts []string
+			for s, es := range em {
+				for k, sh := range e.shapes {
+					if sh == s {
+						parts = append(parts, fmt.Sprintf("%d:%v", k, es))
+					}
+				}
+			}
+			sort.Strings(parts)
+			return strings.Join(parts, ",")
 		}})
 		ops = append(ops, opT{fmt.Sprintf("CrossingsEdgeMap(e%d)", i), func(e *env) string {
 			em := e.cq.CrossingsEdgeMap(ed[0], ed[1], s2.CrossingTypeInterior)
@@ -989,10 +1027,10 @@ func c13OtherQueriesMachine() *machine {
 		p := p
 		ops = append(ops, opT{fmt.Sprintf("Contains(p%d)", i), func(e *env) string { return fmt.Sprint(e.pq.Contains(p), len(e.pq.ContainingShapes(p))) }})
 		ops = append(ops, opT{fmt.Sprintf("ShapeContains(p%d)", i), func(e *env) string {
-			return fmt.Sprint(e.pq.ShapeContains(e.shapes[0], p), e.pq.ShapeContains(e.shapes[3], p))
+			return fmt.Sprint(e.pq.ShapeContains(e.shapes[shapeA], p), e.pq.ShapeContains(e.shapes[shapeB], p))
 		}})
 	}
-	m := &machine{name: "M4-Crossing+ContainsPoint-query-reuse", nOps: len(ops)}
+	m := &machine{name: name, nOps: len(ops)}
 	m.opStr = func(op int) string { return ops[op].name }
 	exp := map[int]string{}
 	m.run = func(hist []int) (string, string, string) {
@@ -1088,6 +1126,7 @@ func c13Jobs(c *core.Ctx) []c13Job {
 		c13Job{false, c13QueryMachine(false), core.Pick(c, 3, 4)},
 		c13Job{false, c13QueryMachine(true), core.Pick(c, 3, 4)},
 		c13Job{false, c13OtherQueriesMachine(), core.Pick(c, 3, 4)},
+		c13Job{false, c13SmallIndexQueriesMachine(), core.Pick(c, 3, 4)},
 		c13Job{false, c13IndexTargetMachine(false), core.Pick(c, 3, 5)},
 		c13Job{false, c13IndexTargetMachine(true), core.Pick(c, 3, 5)},
 		c13Job{false, c13ResetMachine(), core.Pick(c, 5, 7)})
@@ -1121,7 +1160,7 @@ func c13JobWorker(args []string) int {
 }
 
 func c13Machines() []*machine {
-	ms := []*machine{c13IndexMachine(), c13QueryMachine(false), c13QueryMachine(true), c13OtherQueriesMachine(), c13IndexTargetMachine(false), c13IndexTargetMachine(true), c13ResetMachine()}
+	ms := []*machine{c13IndexMachine(), c13QueryMachine(false), c13QueryMachine(true), c13OtherQueriesMachine(), c13SmallIndexQueriesMachine(), c13IndexTargetMachine(false), c13IndexTargetMachine(true), c13ResetMachine()}
 	for _, nv := range []int{8, 40, 100} {
 		ms = append(ms, c13LoopMachine(nv))
 	}
